@@ -236,14 +236,34 @@ class Check:
             by_role.setdefault(c.get('role', c['obligation']), []).append(c)
         os.makedirs(os.path.join(VERIF, 'evidence', 'replays'), exist_ok=True)
         for role, cs in by_role.items():
-            c = cs[0]
+            # several path classes may violate the same obligation; some need an environment fault that cannot be provoked
+            # natively.  Try a few of them (those the spec prefers first) until one reproduces.
+            order = sorted(range(len(cs)), key=lambda i: (cs[i].get('prio', 0), i))
+            tried = 0
+            c = cs[order[0]]
             reproduced, detail = (False, 'no replay driver')
-            if replay is not None:
-                try:
-                    reproduced, detail = replay(c)
-                except Exception as e:
-                    reproduced, detail = False, 'replay driver failed: %s' % e
-                    log(traceback.format_exc())
+            seen_lines = set()
+            for i in order:
+                cand = cs[i]
+                key = json.dumps(jsonable(cand.get('witness', {}).get('line') or cand.get('native_scenario') or i))
+                if key in seen_lines:
+                    continue
+                seen_lines.add(key)
+                tried += 1
+                if tried > int(os.environ.get('VERIF_REPLAY_TRIES', '4')):
+                    break
+                r, d = (False, 'no replay driver')
+                if replay is not None:
+                    try:
+                        r, d = replay(cand)
+                    except Exception as e:
+                        r, d = False, 'replay driver failed: %s' % e
+                        log(traceback.format_exc())
+                cand['replay'] = {'reproduced': r, 'detail': d}
+                if r or tried == 1:
+                    c, reproduced, detail = cand, r, d
+                if r:
+                    break
             c['replay'] = {'reproduced': reproduced, 'detail': detail}
             c['count'] = len(cs)
             if not reproduced:
